@@ -164,3 +164,35 @@ def label_rule(l):
     rs = raises(lambda: Species(l))
     rr = raises(lambda: Reaction("A -> B", label=l))
     return (rs == bad) and (rr == bad)
+
+
+def abi_stoichiometry(q, a, b, c, d, opt):
+    """the vectors handed to the native engine: for the forward half of a reaction the reactant coefficients and the net change, for the
+    reverse half the product coefficients and minus the net change - also when a species stands on BOTH sides (catalyst, autocatalysis)"""
+    from strengths.librdengine import LibRDEngine
+    from strengths.rdscript import RDScript
+    from vt.glue import RecLib, GRID_NAMES
+    from strengths import RDSystem, RDGridSpace, RDNetwork, Species
+    sides = [({"A": a, "E": b}, {"B": c, "E": d}), ({"A": a, "B": b}, {"A": c + d}), ({"A": a, "C": b}, {"A": c, "C": d}), ({"A": a}, {"B": b, "C": c, "A": d})][q % 4]
+    sub_, prod_ = sides
+    net = RDNetwork(species=[Species(l) for l in "ABCE"], reactions=[Reaction([dict(sub_), dict(prod_)], kf=1.0, kr=0.5), Reaction("B -> C", kf=2.0)])
+    sysm = RDSystem(net, RDGridSpace(w=2, h=1, d=1, cell_vol=8.0), state=[5.0] * 8)
+    lib = RecLib()
+    option = ["euler", "tauleap", "gillespie"][opt % 3]
+    e = LibRDEngine(lib, option=option, requires_molecules=option != "euler")
+    e.setup(RDScript(sysm, [0, 1.0]))
+    name, vals = [x for x in lib.log if x[0].startswith("engineexport_initialize")][0]
+    args = dict(zip(GRID_NAMES, vals))
+    nr = args["n_reactions"]
+    if nr != 4:
+        return False
+    labels = "ABCE"
+    for s_, lab in enumerate(labels):
+        ss, ps = sub_.get(lab, 0), prod_.get(lab, 0)
+        want_sub = [ss, ps, 1 if lab == "B" else 0, 1 if lab == "C" else 0]
+        want_sto = [ps - ss, ss - ps, (-1 if lab == "B" else (1 if lab == "C" else 0)), (1 if lab == "B" else (-1 if lab == "C" else 0))]
+        if [int(args["sub"][s_ * nr + r]) for r in range(nr)] != want_sub:
+            return False
+        if [int(args["sto"][s_ * nr + r]) for r in range(nr)] != want_sto:
+            return False
+    return True
